@@ -1,6 +1,45 @@
 import ModbusVerif.Lemmas.GoEvalFrameLemmas
 import ModbusVerif.Lemmas.MbapLemmas
 import ModbusVerif.Lemmas.RtuLemmas
+/-
+  C02, source tie for the FRAME READERS: `tcpTransport.readMBAPFrame`, `rtuTransport.readRTUFrame`
+  and the RTU length table `expectedResponseLenth`, as rendered by the translator
+  (`Gen.gs_tcpTransport_readMBAPFrame`, `Gen.gs_rtuTransport_readRTUFrame`,
+  `Gen.gs_expectedResponseLenth`, regenerated from /repo on every run), are EVALUATED by
+  `Modbus.GoEval` against a byte stream and proved equal, for ALL streams and endings, to the
+  hand-written models `Mbap.readFrame`, `Rtu.readFrame`, `Rtu.expectedResponseLength`, about which
+  Props/C02.lean and the framing lemmas prove the properties.
+
+  1. `C02F_expectedResponseLenth`: the `switch` of the source, run for every pair of bytes.
+  2. `C02F_readMBAPFrame`, 3. `C02F_readRTUFrame`: verdict and unread remainder of the stream.
+  4. `C02F_staleReads`: which buffer every text-keyed leaf denotes.
+  5. consequences spelled out (order of the MBAP checks), 6. sensitivity (variants derived from the
+     generated terms are told apart), 7. concrete runs.
+
+  How the stream is threaded (Lemmas/GoEvalFrameLemmas.lean, `staged`): the oracle is stateless,
+  so the function is run in STAGES. Stage k answers the first k `io.ReadFull` calls (recognised by
+  the value of their buffer argument; every opaque leaf is bound to the symbol of its own source
+  text) and stops at the (k+1)-th; the length of that read is computed from the environment AT
+  THE STOP (`mbapBufLen` / `rtuBufLen`: the constant `mbapHeaderLength`, the literal 3, or the
+  current value of `bytesNeeded`), its result is `Strm.readFull n rest e` on the unread part of the
+  stream: `(len got, nil)` or `(len got, shortErr …)` — `io.EOF` when nothing was read,
+  `io.ErrUnexpectedEOF` after a partial read, the timeout / other error otherwise — and the bytes
+  go to a heap from which the NEXT stage's environment derives the byte leaves (`rxbuf[6]`,
+  `rxbuf[1]`, `bytesToUint16(BIG_ENDIAN, rxbuf[4:6])`, the CRC leaf). Neither the lengths nor the
+  order of the reads are assumed.
+
+  What is modelled (not derived from the generated terms):
+  * `io.ReadFull` = `Strm.readFull` (C12 relates it to arbitrary segmentations);
+  * the four i/o error values are pairwise distinct symbols (`errSym`), and
+    `io.ErrUnexpectedEOF` (not a constant of the package) is bound to its symbol;
+  * `bytesToUint16(BIG_ENDIAN, b)` = `mk16 b[0] b[1]` (`mbapPure`; proved about encoding.go in C17);
+  * `crc.init(); crc.add(x); crc.isEqual(l, h)` = `Crc.isEqual (Crc.add Crc.init x) l h`
+    (`crcLeaf`; crc.go is tied to `Crc` in C03), `rtuVerdict` checks that both calls were made;
+  * `expectedResponseLenth` inside `readRTUFrame` is NOT modelled: the oracle runs
+    `gs_expectedResponseLenth` (`erlAnswer`);
+  * a composite literal `&pdu{…}` is one opaque leaf: `mbapVerdict` / `rtuVerdict` read its field
+    texts back (`litField`) and resolve them in the final environment and heap.
+-/
 set_option linter.unusedSimpArgs false
 set_option linter.unusedVariables false
 
@@ -197,6 +236,23 @@ macro_rules
       List.cons.injEq, ne_eq, not_false_eq_true, not_true_eq_false, Option.map_some, Option.map_none, Int.toNat_natCast,
       errSym_ioEOF, errSym_ioUnexpectedEOF, errSym_ioTimeout, errSym_ioOther, $ls,*])
 
+theorem mbapLit_unit : litField "&pdu{ unitId: unitId, functionCode: rxbuf[0], payload: rxbuf[1:], }"
+    "unitId" = some "unitId" := by decide +kernel
+theorem mbapLit_fc : litField "&pdu{ unitId: unitId, functionCode: rxbuf[0], payload: rxbuf[1:], }"
+    "functionCode" = some "rxbuf[0]" := by decide +kernel
+theorem mbapLit_payload : litField "&pdu{ unitId: unitId, functionCode: rxbuf[0], payload: rxbuf[1:], }"
+    "payload" = some "rxbuf[1:]" := by decide +kernel
+
+/-- read the verdict off an evaluated run (a separate `simp` pass, after `mbap_eval`) -/
+syntax "mbap_verdict" " [" Lean.Parser.Tactic.simpLemma,* "]" : tactic
+macro_rules
+  | `(tactic| mbap_verdict [$ls,*]) => `(tactic|
+    simp only [mbapVerdict, write_def, symErr, read_def, read?_cons, read?_nil, String.reduceEq,
+      ↓reduceIte, Option.getD_some, Option.getD_none, Option.map_some, Option.map_none,
+      mbapLit_unit, mbapLit_fc, mbapLit_payload, and_self, ne_eq, not_true_eq_false,
+      not_false_eq_true, heapGet_cons, heapGet_nil,
+      Val.sym.injEq, Int.toNat_natCast, byteOfNat_toNat, u16OfNat_toNat', $ls,*])
+
 theorem mbap_stage0 : nextRead mbapBufLen (mbapStage 64 [] []) = some (mbapBuf1, 7) := by
   mbap_eval []
 
@@ -207,9 +263,11 @@ theorem mbap_short_hdr (s : Bytes) (e : Ending) (h : s.length < 7) :
   rw [staged_next _ _ _ _ _ _ _ _ _ mbap_stage0, readFull_short_of_lt e h]
   rcases shortErr_cases s.length e with he | he | he | he <;> rw [he]
   · rw [staged_done]
-    · mbap_eval [mbapVerdict, write_def, symErr]
     · mbap_eval []
-  all_goals (rw [staged_done]; (· mbap_eval [mbapVerdict, write_def, symErr]); (· mbap_eval []))
+      mbap_verdict []
+    · mbap_eval []
+  all_goals (rw [staged_done]; (· mbap_eval []; mbap_verdict []); (· mbap_eval []))
+
 
 
 theorem u16_toNat_eq_zero (v : U16) : ((v.toNat : Int) = 0) ↔ v = 0 := by
@@ -234,11 +292,13 @@ theorem mbap_full_hdr (b0 b1 b2 b3 b4 b5 b6 : Byte) (tl : Bytes) (e : Ending) :
   simp only [RF_got_ok, RF_rest_ok, rfVals_ok, List.nil_append]
   by_cases c1 : ((mk16 b4 b5).toNat : Int) - 1 + 7 > 260
   · rw [Mbap.readFrame_cons7_badlen e (Or.inl (by omega)), staged_done]
-    · mbap_eval [mbapVerdict, write_def, symErr, hw1, hw2, hw3, c1]
+    · mbap_eval [hw1, hw2, hw3, c1]
+      mbap_verdict []
     · mbap_eval [hw1, hw2, hw3, c1]
   · by_cases c2 : ((mk16 b4 b5).toNat : Int) - 1 ≤ 0
     · rw [Mbap.readFrame_cons7_badlen e (Or.inr (by omega)), staged_done]
-      · mbap_eval [mbapVerdict, write_def, symErr, hw1, hw2, hw3, c1, c2]
+      · mbap_eval [hw1, hw2, hw3, c1, c2]
+        mbap_verdict []
       · mbap_eval [hw1, hw2, hw3, c1, c2]
     · have c0 : (0 : Int) ≤ ((mk16 b4 b5).toNat : Int) - 1 := by omega
       have ht : (((mk16 b4 b5).toNat : Int) - 1).toNat = (mk16 b4 b5).toNat - 1 := by omega
@@ -253,7 +313,7 @@ theorem mbap_full_hdr (b0 b1 b2 b3 b4 b5 b6 : Byte) (tl : Bytes) (e : Ending) :
           staged_zero]
         simp only [RF_got_short, RF_rest_short, rfVals_short, List.cons_append, List.nil_append]
         rcases shortErr_cases tl.length e with he | he | he | he <;> rw [he] <;>
-          mbap_eval [mbapVerdict, write_def, symErr, hw1, hw2, hw3, c1, c2]
+          (mbap_eval [hw1, hw2, hw3, c1, c2]; mbap_verdict [])
       · obtain ⟨body, rest, rfl, hb⟩ : ∃ body rest, tl = body ++ rest ∧
             body.length = (mk16 b4 b5).toNat - 1 :=
           ⟨tl.take ((mk16 b4 b5).toNat - 1), tl.drop ((mk16 b4 b5).toNat - 1),
@@ -263,10 +323,567 @@ theorem mbap_full_hdr (b0 b1 b2 b3 b4 b5 b6 : Byte) (tl : Bytes) (e : Ending) :
         simp only [RF_got_ok, RF_rest_ok, rfVals_ok, List.cons_append, List.nil_append]
         by_cases hp : ((mk16 b2 b3).toNat : Int) = 0
         · have hp' : mk16 b2 b3 = 0 := (u16_toNat_eq_zero _).mp hp
-          mbap_eval [mbapVerdict, write_def, symErr, hw1, hw2, hw3, c1, c2, hp, hp']
-          trace_state
-          sorry
+          mbap_eval [hw1, hw2, hw3, c1, c2, hp]
+          mbap_verdict [hp']
         · have hp' : mk16 b2 b3 ≠ 0 := fun h => hp ((u16_toNat_eq_zero _).mpr h)
-          mbap_eval [mbapVerdict, write_def, symErr, hw1, hw2, hw3, c1, c2, hp, hp']
+          mbap_eval [hw1, hw2, hw3, c1, c2, hp]
+          mbap_verdict [hp']
+
+
+theorem mbap_loopFree : loopFree gs_tcpTransport_readMBAPFrame = true ∧
+    depth gs_tcpTransport_readMBAPFrame ≤ 64 := by decide +kernel
+
+theorem mbapRun_fuel (fuel : Nat) (hf : 64 ≤ fuel) (s : Bytes) (e : Ending) :
+    mbapRun fuel s e = mbapRun 64 s e := by
+  have h : mbapStage fuel = mbapStage 64 := by
+    funext heap ans
+    exact exec_loopFree _ _ 64 fuel _ mbap_loopFree.1 mbap_loopFree.2 hf
+  unfold mbapRun
+  rw [h]
+
+theorem mbap_64 (s : Bytes) (e : Ending) :
+    mbapVerdict (mbapRun 64 s e) = some (Mbap.readFrame s e) := by
+  match s with
+  | b0 :: b1 :: b2 :: b3 :: b4 :: b5 :: b6 :: tl => exact mbap_full_hdr b0 b1 b2 b3 b4 b5 b6 tl e
+  | [] | [_] | [_, _] | [_, _, _] | [_, _, _, _] | [_, _, _, _, _] | [_, _, _, _, _, _] =>
+    exact mbap_short_hdr _ e (by simp)
+
+/-- **`readMBAPFrame` = `Mbap.readFrame`** for every stream `s`, every ending `e` and every
+    fuel ≥ 64: the staged run of the CURRENT source (`mbapRun`: header read of
+    `mbapHeaderLength` bytes, second read of `bytesNeeded` bytes, both lengths taken from the
+    run) returns, and its verdict — error symbol, or `nil` with the PDU fields
+    (`unitId` = header byte 6, `functionCode` = first byte of the second buffer, `payload` = the
+    rest of it) and `txnId` — together with the unread remainder of the stream is exactly what
+    the model computes. -/
+theorem C02F_readMBAPFrame (s : Bytes) (e : Ending) (fuel : Nat) (hf : 64 ≤ fuel) :
+    mbapVerdict (mbapRun fuel s e) = some (Mbap.readFrame s e) := by
+  rw [mbapRun_fuel fuel hf]; exact mbap_64 s e
+
+
+/-! ## 3. `rtuTransport.readRTUFrame` -/
+
+def rtuBuf1 : Val := .sym "rxbuf[0:3]"
+def rtuBuf2 : Val := .sym "rxbuf[3 : 3+bytesNeeded]"
+def rtuLit : String :=
+  "&pdu{ unitId: rxbuf[0], functionCode: rxbuf[1], payload: rxbuf[2 : 3+bytesNeeded-2], }"
+
+/-- `crc.init(); crc.add(rxbuf[0 : 3+bytesNeeded-2]);`
+    `crc.isEqual(rxbuf[3+bytesNeeded-2], rxbuf[3+bytesNeeded-1])` on the content `frame` of
+    `rxbuf` with `bytesNeeded = bn`: the model's `Crc` functions on exactly these bytes -/
+def crcLeaf (frame : Bytes) (bn : Nat) : Bool :=
+  Crc.isEqual (Crc.add Crc.init (frame.take (3 + bn - 2))) (frame.getD (3 + bn - 2) 0)
+    (frame.getD (3 + bn - 1) 0)
+
+/-- environment of a stage. `h` = bytes stored by the first read into `rxbuf[0:3]`, `body` =
+    bytes stored by the second read into `rxbuf[3 : 3+bytesNeeded]`, `bn` = the length requested
+    by the second read (= `bytesNeeded` at that call). `rxbuf` is ONE array (assigned once): its
+    content is `h ++ body` followed by zeros (`getD … 0`). `rxbuf[1]`, `rxbuf[2]` are read after
+    the first read only; the CRC leaf is read only after the second read was complete. -/
+def rtuEnv (h body : Bytes) (bn : Nat) : Env :=
+  [("rt.link", .sym "rt.link"),
+   ("io.ErrUnexpectedEOF", .sym "io.ErrUnexpectedEOF"),
+   ("make([]byte, maxRTUFrameLength)", .sym "make([]byte, maxRTUFrameLength)"),
+   ("rxbuf[0:3]", rtuBuf1),
+   ("rxbuf[3 : 3+bytesNeeded]", rtuBuf2),
+   ("rxbuf[1]", .int (h.getD 1 0).toNat),
+   ("rxbuf[2]", .int (h.getD 2 0).toNat),
+   ("rxbuf[0 : 3+bytesNeeded-2]", .sym "rxbuf[0 : 3+bytesNeeded-2]"),
+   ("crc.isEqual(rxbuf[3+bytesNeeded-2], rxbuf[3+bytesNeeded-1])", .ofBool (crcLeaf (h ++ body) bn)),
+   (rtuLit, .sym rtuLit),
+   ("res", .sym "nil"), ("err", .sym "nil"), ("byteCount", .int 0), ("bytesNeeded", .int 0)]
+
+/-- `(byteCount, err)` at the end of the run of `gs_expectedResponseLenth` (section 1) -/
+def erlOut (a b : Int) : Val × Val :=
+  (Env.read (erlRun a b).env "byteCount", Env.read (erlRun a b).env "err")
+
+/-- `expectedResponseLenth(a, b)`: the RUN of `gs_expectedResponseLenth` -/
+def erlAnswer : List Val → Option (List Val)
+  | [.int a, .int b] =>
+    if (erlRun a b).how = .returned then some [(erlOut a b).1, (erlOut a b).2] else none
+  | _ => none
+theorem erlAnswer_int (a b : Int) : erlAnswer [.int a, .int b] =
+    if (erlRun a b).how = .returned then some [(erlOut a b).1, (erlOut a b).2] else none := by
+  exact id rfl
+theorem erlOut_byte (rc rl : Byte) : erlOut rc.toNat rl.toNat = erlModel rc rl := by
+  unfold erlOut
+  rw [erlRun_byteCount, erlRun_err]
+
+theorem erlRun_how (rc rl : Byte) : (erlRun rc.toNat rl.toNat).how = .returned :=
+  congrArg (fun x => x.1) (erl_16 rc rl)
+
+/-- the helper calls of `readRTUFrame`: `expectedResponseLenth` is evaluated, `crc.init` /
+    `crc.add` have no results (their effect is in `crcLeaf`) -/
+def rtuPure : Oracle := fun f args =>
+  if f = "expectedResponseLenth" then erlAnswer args
+  else if f = "crc.init" then some []
+  else if f = "crc.add" then some []
+  else none
+
+/-- length of the slice passed to `io.ReadFull`: `rxbuf[0:3]` has 3 bytes,
+    `rxbuf[3 : 3+bytesNeeded]` the CURRENT value of `bytesNeeded` (a negative length or a slice
+    beyond the 256 bytes of `rxbuf` is a Go panic: no answer) -/
+def rtuBufLen (env : Env) (b : Val) : Option Nat :=
+  if b = rtuBuf1 then some 3
+  else if b = rtuBuf2 then
+    (match Env.read env "bytesNeeded" with
+     | .int n => if 0 ≤ n ∧ 3 + n ≤ 256 then some n.toNat else none
+     | _ => none)
+  else none
+
+def rtuStage (fuel : Nat) (heap : Heap) (ans : Answers) : Res :=
+  exec (readOracle rtuPure ans) fuel gs_rtuTransport_readRTUFrame
+    (rtuEnv (heapGet heap rtuBuf1) (heapGet heap rtuBuf2) (heapLen heap rtuBuf2))
+
+/-- `readRTUFrame` on the stream `s` ending with `e` -/
+def rtuRun (fuel : Nat) (s : Bytes) (e : Ending) : Run :=
+  staged (rtuStage fuel) rtuBufLen e 2 [] [] s
+
+/-- what the caller of `readRTUFrame` sees, and what is left on the stream. `err = nil`: `res`
+    is the composite literal `rtuLit`, whose fields index `rxbuf` = `h ++ body` (heap) with the
+    final value of `bytesNeeded`, which must be the length the second read requested; the CRC
+    leaf is meaningful only after `crc.init(); crc.add(rxbuf[0 : 3+bytesNeeded-2])`: required in
+    the call log for `nil` and `ErrBadCRC`. -/
+def rtuVerdict (r : Run) : Option (Except Err Pdu × Bytes) :=
+  match r.res.how with
+  | .returned =>
+    match Env.read r.res.env "err" with
+    | .sym e =>
+      if e = "nil" then
+        match Env.read r.res.env "res", Env.read r.res.env "bytesNeeded" with
+        | .sym lit, .int bn =>
+          if litField lit "unitId" = some "rxbuf[0]" ∧ litField lit "functionCode" = some "rxbuf[1]"
+              ∧ litField lit "payload" = some "rxbuf[2 : 3+bytesNeeded-2]"
+              ∧ bn = (heapLen r.heap rtuBuf2 : Int)
+              ∧ r.res.calls.drop 3 = [("crc.init", []), ("crc.add", [.sym "rxbuf[0 : 3+bytesNeeded-2]"])]
+          then
+            some (.ok ⟨(heapGet r.heap rtuBuf1 ++ heapGet r.heap rtuBuf2).getD 0 0,
+                       (heapGet r.heap rtuBuf1 ++ heapGet r.heap rtuBuf2).getD 1 0,
+                       ((heapGet r.heap rtuBuf1 ++ heapGet r.heap rtuBuf2).take
+                          (3 + bn.toNat - 2)).drop 2⟩, r.rest)
+          else none
+        | _, _ => none
+      else if e = "ErrBadCRC" ∧
+          r.res.calls.drop 3 ≠ [("crc.init", []), ("crc.add", [.sym "rxbuf[0 : 3+bytesNeeded-2]"])]
+        then none
+      else (symErr e).map (fun x => (.error x, r.rest))
+    | _ => none
+  | _ => none
+
+theorem rtu_consts : intConst? "maxRTUFrameLength" = some 256 := by decide
+theorem rtuLit_unit : litField
+    "&pdu{ unitId: rxbuf[0], functionCode: rxbuf[1], payload: rxbuf[2 : 3+bytesNeeded-2], }"
+    "unitId" = some "rxbuf[0]" := by decide +kernel
+theorem rtuLit_fc : litField
+    "&pdu{ unitId: rxbuf[0], functionCode: rxbuf[1], payload: rxbuf[2 : 3+bytesNeeded-2], }"
+    "functionCode" = some "rxbuf[1]" := by decide +kernel
+theorem rtuLit_payload : litField
+    "&pdu{ unitId: rxbuf[0], functionCode: rxbuf[1], payload: rxbuf[2 : 3+bytesNeeded-2], }"
+    "payload" = some "rxbuf[2 : 3+bytesNeeded-2]" := by decide +kernel
+
+syntax "rtu_eval" " [" Lean.Parser.Tactic.simpLemma,* "]" : tactic
+macro_rules
+  | `(tactic| rtu_eval [$ls,*]) => `(tactic|
+    go_eval_nowrap [rtuStage, gs_rtuTransport_readRTUFrame, rtuEnv, rtuPure,
+      readOracle, rtuBufLen, rtuBuf1, rtuBuf2, rtuLit, erlAnswer_int, erlRun_how, erlOut_byte,
+      wrap_u8_byte,
+      ansLookup_nil, ansLookup_cons, heapGet_nil, heapGet_cons, heapLen_nil, heapLen_cons,
+      nextRead_stopped, nextRead_returned, nextRead_stuck, nextRead_fell, nextRead_ite,
+      rfVals_ok, rfVals_short, RF_got_ok, RF_got_short, RF_rest_ok, RF_rest_short,
+      List.getD_cons_zero, List.getD_cons_succ, List.getD_nil, Val.sym.injEq, Val.int.injEq,
+      List.cons.injEq, ne_eq, not_false_eq_true, not_true_eq_false, eq_self, decide_true,
+      decide_false, Option.map_some, Option.map_none, Int.toNat_natCast,
+      Int.reduceGT, Int.reduceLT, Int.reduceLE, Int.reduceGE, Int.reduceEq, Int.reduceNe,
+      errSym_ioEOF, errSym_ioUnexpectedEOF, errSym_ioTimeout, errSym_ioOther, $ls,*])
+
+syntax "rtu_verdict" " [" Lean.Parser.Tactic.simpLemma,* "]" : tactic
+macro_rules
+  | `(tactic| rtu_verdict [$ls,*]) => `(tactic|
+    simp only [rtuVerdict, write_def, symErr, read_def, read?_cons, read?_nil, String.reduceEq,
+      ↓reduceIte, Option.getD_some, Option.getD_none, Option.map_some, Option.map_none,
+      rtuLit_unit, rtuLit_fc, rtuLit_payload, and_self, and_true, true_and, false_and, and_false,
+      ne_eq, not_true_eq_false,
+      not_false_eq_true, heapGet_cons, heapGet_nil, heapLen_cons, heapLen_nil, rtuBuf1, rtuBuf2,
+      Val.sym.injEq, Int.toNat_natCast, List.drop_succ_cons, List.drop_zero, eq_self,
+      List.cons_append, List.nil_append, List.getD_cons_zero, List.getD_cons_succ, $ls,*])
+
+theorem rtu_stage0 : nextRead rtuBufLen (rtuStage 64 [] []) = some (rtuBuf1, 3) := by
+  rtu_eval []
+
+theorem short1_cases (k : Nat) (e : Ending) (hk : k < 3) :
+    (k = 0 ∧ shortErr k e = .ioTimeout ∧ Rtu.prefixErr k e = .ioTimeout) ∨
+    (k = 0 ∧ shortErr k e = .ioEOF ∧ Rtu.prefixErr k e = .ioEOF) ∨
+    (k = 0 ∧ shortErr k e = .ioOther ∧ Rtu.prefixErr k e = .ioOther) ∨
+    (0 < k ∧ Rtu.prefixErr k e = .shortFrame) := by
+  unfold shortErr Rtu.prefixErr
+  by_cases h0 : k = 0
+  · cases e <;> simp [h0, Ending.err]
+  · have : 0 < k := by omega
+    simp [h0, hk, this]
+
+theorem rtu_short_hdr (s : Bytes) (e : Ending) (h : s.length < 3) :
+    rtuVerdict (rtuRun 64 s e) = some (Rtu.readFrame s e) := by
+  rw [Rtu.readFrame_short3 e h]
+  unfold rtuRun
+  rw [staged_next _ _ _ _ _ _ _ _ _ rtu_stage0, readFull_short_of_lt e h]
+  simp only [RF_got_short, RF_rest_short, rfVals_short, List.nil_append]
+  rcases short1_cases s.length e h with ⟨h0, he, hp⟩ | ⟨h0, he, hp⟩ | ⟨h0, he, hp⟩ | ⟨h0, hp⟩
+  · have c : ¬ ((s.length : Int) > 0) := by omega
+    have c3 : ¬ ((s.length : Int) = 3) := by omega
+    rw [he, hp, staged_done]
+    · rtu_eval [c, c3]
+      rtu_verdict []
+    · rtu_eval [c, c3]
+  · have c : ¬ ((s.length : Int) > 0) := by omega
+    have c3 : ¬ ((s.length : Int) = 3) := by omega
+    rw [he, hp, staged_done]
+    · rtu_eval [c, c3]
+      rtu_verdict []
+    · rtu_eval [c, c3]
+  · have c : ¬ ((s.length : Int) > 0) := by omega
+    have c3 : ¬ ((s.length : Int) = 3) := by omega
+    rw [he, hp, staged_done]
+    · rtu_eval [c, c3]
+      rtu_verdict []
+    · rtu_eval [c, c3]
+  · have c : (s.length : Int) > 0 := by omega
+    have c3 : ¬ ((s.length : Int) = 3) := by omega
+    rw [hp, staged_done]
+    · rtu_eval [c, c3]
+      rtu_verdict []
+    · rtu_eval [c, c3]
+
+
+theorem erl_error_eq {fc b : Byte} {err : Err} (h : Rtu.expectedResponseLength fc b = .error err) :
+    err = .protocolError := by
+  revert h
+  simp only [Rtu.expectedResponseLength]
+  repeat' split
+  all_goals intro h; first | (injection h with h; exact h.symm) | exact nomatch h
+
+theorem erl_ok_le {fc b : Byte} {n : Nat} (h : Rtu.expectedResponseLength fc b = .ok n) :
+    n ≤ 255 := by
+  have hb := b.isLt
+  revert h
+  simp only [Rtu.expectedResponseLength]
+  repeat' split
+  all_goals intro h; first | (injection h with h; omega) | exact nomatch h
+
+theorem erlModel_ok {fc b : Byte} {n : Nat} (h : Rtu.expectedResponseLength fc b = .ok n) :
+    erlModel fc b = (.int n, .sym "nil") := by
+  simp only [erlModel, h, erlVals_ok]
+theorem erlModel_error {fc b : Byte} {err : Err} (h : Rtu.expectedResponseLength fc b = .error err) :
+    erlModel fc b = (.int 0, .sym "ErrProtocolError") := by
+  have := erl_error_eq h
+  subst this
+  simp only [erlModel, h, erlVals_error, errSym_protocolError]
+
+theorem short2_cases (k : Nat) (e : Ending) :
+    (shortErr k e = .ioTimeout ∧ Rtu.prefixErr (k + 3) e = .ioTimeout) ∨
+    (shortErr k e = .ioEOF ∧ Rtu.prefixErr (k + 3) e = .ioEOF) ∨
+    (shortErr k e = .ioUnexpectedEOF ∧ Rtu.prefixErr (k + 3) e = .shortFrame) ∨
+    (shortErr k e = .ioOther ∧ Rtu.prefixErr (k + 3) e = .ioOther) := by
+  rw [Rtu.prefixErr_add_three]
+  unfold shortErr
+  by_cases h0 : k = 0 <;> cases e <;> simp [h0, Ending.err]
+
+theorem crcLeaf_frame (b0 b1 b2 l h : Byte) (data : Bytes) (n : Nat) (hd : data.length = n) :
+    crcLeaf (b0 :: b1 :: b2 :: (data ++ [l, h])) (n + 2) =
+      Crc.isEqual (Crc.add Crc.init (b0 :: b1 :: b2 :: data)) l h := by
+  subst hd
+  unfold crcLeaf
+  have e1 : 3 + (data.length + 2) - 2 = data.length + 3 := by omega
+  have e2 : 3 + (data.length + 2) - 1 = data.length + 4 := by omega
+  rw [e1, e2]
+  simp [List.take_succ_cons, List.getD_eq_getElem?_getD]
+
+theorem payload_frame (b0 b1 b2 l h : Byte) (data : Bytes) (n : Nat) (hd : data.length = n) :
+    ((b0 :: b1 :: b2 :: (data ++ [l, h])).take (3 + (n + 2) - 2)).drop 2 = b2 :: data := by
+  subst hd
+  have e1 : 3 + (data.length + 2) - 2 = data.length + 3 := by omega
+  rw [e1]
+  simp [List.take_succ_cons]
+
+theorem rtu_full_hdr (b0 b1 b2 : Byte) (tl : Bytes) (e : Ending) :
+    rtuVerdict (rtuRun 64 (b0 :: b1 :: b2 :: tl) e) = some (Rtu.readFrame (b0 :: b1 :: b2 :: tl) e) := by
+  have hrf : readFull 3 (b0 :: b1 :: b2 :: tl) e = .ok [b0, b1, b2] tl :=
+    readFull_append' [b0, b1, b2] tl e rfl
+  have hlen3 : ((([b0, b1, b2] : Bytes).length : Nat) : Int) = 3 := rfl
+  unfold rtuRun
+  rw [staged_next _ _ _ _ _ _ _ _ _ rtu_stage0, hrf]
+  simp only [RF_got_ok, RF_rest_ok, rfVals_ok, List.nil_append]
+  cases hx : Rtu.expectedResponseLength b1 b2 with
+  | error err =>
+    have hm := erlModel_error hx
+    rw [Rtu.readFrame_cons3_lenErr e hx, erl_error_eq hx, staged_done]
+    · rtu_eval [hlen3, hm]
+      rtu_verdict []
+    · rtu_eval [hlen3, hm]
+  | ok n =>
+    have hm := erlModel_ok hx
+    have hn := erl_ok_le hx
+    have hwA : wrap .int ((n : Int) + 2) = (n : Int) + 2 := wrap_int (by omega) (by omega)
+    have hwB : wrap .int (3 + ((n : Int) + 2)) = 3 + ((n : Int) + 2) := wrap_int (by omega) (by omega)
+    by_cases c1 : 3 + ((n : Int) + 2) > 256
+    · rw [Rtu.readFrame_cons3_tooLong e hx (by omega), staged_done]
+      · rtu_eval [hlen3, hm, hwA, hwB, c1]
+        rtu_verdict []
+      · rtu_eval [hlen3, hm, hwA, hwB, c1]
+    · have c0 : (0 : Int) ≤ (n : Int) + 2 := by omega
+      have c256 : 3 + ((n : Int) + 2) ≤ 256 := by omega
+      have ht : ((n : Int) + 2).toNat = n + 2 := by omega
+      have hnext : nextRead rtuBufLen (rtuStage 64 [(rtuBuf1, 3, [b0, b1, b2])]
+          [(rtuBuf1, [.int ([b0, b1, b2] : Bytes).length, .sym "nil"])]) =
+          some (rtuBuf2, n + 2) := by
+        rtu_eval [hlen3, hm, hwA, hwB, c1, c0, c256, ht]
+      rw [staged_next _ _ _ _ _ _ _ _ _ hnext]
+      by_cases hs : tl.length < n + 2
+      · rw [Rtu.readFrame_cons3_short e hx (by omega) hs, readFull_short_of_lt e hs, staged_zero]
+        simp only [RF_got_short, RF_rest_short, rfVals_short, List.cons_append, List.nil_append]
+        have hne : ¬ ((tl.length : Int) = (n : Int) + 2) := by omega
+        rcases short2_cases tl.length e with ⟨he, hp⟩ | ⟨he, hp⟩ | ⟨he, hp⟩ | ⟨he, hp⟩ <;>
+          rw [he, hp] <;>
+          (rtu_eval [hlen3, hm, hwA, hwB, c1, hne]; rtu_verdict [])
+      · obtain ⟨data, l, h, rest, rfl, hd⟩ : ∃ data l h rest, tl = data ++ l :: h :: rest ∧
+            data.length = n := by
+          refine ⟨tl.take n, (tl.drop n).getD 0 0, (tl.drop n).getD 1 0, tl.drop (n + 2), ?_,
+            by rw [List.length_take]; omega⟩
+          have hl : 2 ≤ (tl.drop n).length := by rw [List.length_drop]; omega
+          have : tl.drop n = (tl.drop n).getD 0 0 :: (tl.drop n).getD 1 0 :: tl.drop (n + 2) := by
+            rw [← List.drop_drop]
+            generalize tl.drop n = d at hl
+            match d, hl with
+            | x :: y :: r, _ => rfl
+          rw [← this, List.take_append_drop]
+        have hsplit : data ++ l :: h :: rest = (data ++ [l, h]) ++ rest := by simp
+        have hlen2 : (((data ++ [l, h]).length : Nat) : Int) = (n : Int) + 2 := by
+          rw [List.length_append, hd]; rfl
+        have hcast : ((n + 2 : Nat) : Int) = (n : Int) + 2 := by omega
+        rw [Rtu.readFrame_cons3_full e hx (by omega) hd, hsplit,
+          readFull_append' (data ++ [l, h]) rest e (by simp [hd]), staged_zero]
+        simp only [RF_got_ok, RF_rest_ok, rfVals_ok, List.cons_append, List.nil_append]
+        have hcl := crcLeaf_frame b0 b1 b2 l h data n hd
+        have hpl := payload_frame b0 b1 b2 l h data n hd
+        cases hc : Crc.isEqual (Crc.add Crc.init (b0 :: b1 :: b2 :: data)) l h with
+        | true =>
+          rw [hc] at hcl
+          rtu_eval [hlen3, hlen2, hm, hwA, hwB, c1, hcl]
+          rtu_verdict [hcast, ht, hpl]
+        | false =>
+          rw [hc] at hcl
+          rtu_eval [hlen3, hlen2, hm, hwA, hwB, c1, hcl]
+          rtu_verdict [hcast, ht, hpl]
+
+
+theorem rtu_loopFree : loopFree gs_rtuTransport_readRTUFrame = true ∧
+    depth gs_rtuTransport_readRTUFrame ≤ 64 := by decide +kernel
+
+theorem rtuRun_fuel (fuel : Nat) (hf : 64 ≤ fuel) (s : Bytes) (e : Ending) :
+    rtuRun fuel s e = rtuRun 64 s e := by
+  have h : rtuStage fuel = rtuStage 64 := by
+    funext heap ans
+    exact exec_loopFree _ _ 64 fuel _ rtu_loopFree.1 rtu_loopFree.2 hf
+  unfold rtuRun
+  rw [h]
+
+theorem rtu_64 (s : Bytes) (e : Ending) :
+    rtuVerdict (rtuRun 64 s e) = some (Rtu.readFrame s e) := by
+  match s with
+  | b0 :: b1 :: b2 :: tl => exact rtu_full_hdr b0 b1 b2 tl e
+  | [] | [_] | [_, _] => exact rtu_short_hdr _ e (by simp)
+
+/-- **`readRTUFrame` = `Rtu.readFrame`** for every stream `s`, every ending `e` and every fuel
+    ≥ 64: the staged run of the CURRENT source (`rtuRun`: read of 3 bytes, the evaluated
+    `expectedResponseLenth(rxbuf[1], rxbuf[2])`, `+ 2`, the 256-byte limit, read of `bytesNeeded`
+    bytes, the CRC leaf = the model's `Crc.isEqual (Crc.add Crc.init …)` on the same bytes)
+    returns, and its verdict — the error symbol, or `nil` with the PDU fields resolved in
+    `rxbuf` — and the unread remainder of the stream (i.e. the number of bytes consumed) are
+    exactly the model's. -/
+theorem C02F_readRTUFrame (s : Bytes) (e : Ending) (fuel : Nat) (hf : 64 ≤ fuel) :
+    rtuVerdict (rtuRun fuel s e) = some (Rtu.readFrame s e) := by
+  rw [rtuRun_fuel fuel hf]; exact rtu_64 s e
+
+
+/-! ## 4. text-keyed leaves and the buffers they denote (`staleReads`)
+
+  `readMBAPFrame` assigns `rxbuf` twice. The compound leaves with base `rxbuf` that are read as
+  leaves are exactly the three below (plus `rxbuf[4:6]` inside the call leaf
+  `bytesToUint16(BIG_ENDIAN, rxbuf[4:6])`): all of them are read between the first read and
+  the re-assignment, so in `mbapEnv` they are bound to the content of the HEADER buffer
+  (`heapGet heap mbapBuf1`), stage by stage. After the re-assignment the only mention of
+  `rxbuf[…]` is inside the composite literal `&pdu{ …, functionCode: rxbuf[0], payload: rxbuf[1:], }`,
+  ONE opaque leaf whose value is its own text: `mbapVerdict` resolves its fields against the buffer
+  that `rxbuf` denotes in the FINAL environment (`make([]byte, bytesNeeded)`, looked up in the
+  heap). No leaf text is used for two different buffers.
+
+  `readRTUFrame` assigns `rxbuf` once (one 256-byte array); `rxbuf[0:3]` and
+  `rxbuf[3 : 3+bytesNeeded]` are the two read targets (aliases of that array: `rtuEnv` / `rtuVerdict`
+  use `h ++ body` as its content), `rxbuf[1]`, `rxbuf[2]` are read after the first read only,
+  `rxbuf[0 : 3+bytesNeeded-2]` is the argument of `crc.add`. `bytesNeeded` is not assigned after the
+  second read (`rtuVerdict` checks that its final value is the length that read requested). -/
+theorem C02F_staleReads :
+    staleReads gs_tcpTransport_readMBAPFrame = ["rxbuf[0:2]", "rxbuf[2:4]", "rxbuf[6]"] ∧
+    assignedTexts "rxbuf" gs_tcpTransport_readMBAPFrame =
+      [some "make([]byte, mbapHeaderLength)", some "make([]byte, bytesNeeded)"] ∧
+    staleReads gs_rtuTransport_readRTUFrame =
+      ["rxbuf[0:3]", "rxbuf[1]", "rxbuf[2]", "rxbuf[3 : 3+bytesNeeded]", "rxbuf[0 : 3+bytesNeeded-2]"] ∧
+    assignedTexts "rxbuf" gs_rtuTransport_readRTUFrame = [some "make([]byte, maxRTUFrameLength)"] ∧
+    staleReads gs_expectedResponseLenth = [] ∧
+    (bindCalls gs_rtuTransport_readRTUFrame).map (fun x => x.2.1) =
+      ["io.ReadFull", "expectedResponseLenth", "io.ReadFull", "crc.init", "crc.add"] ∧
+    (bindCalls gs_tcpTransport_readMBAPFrame).map (fun x => x.2.1) =
+      ["io.ReadFull", "bytesToUint16", "bytesToUint16", "io.ReadFull"] := by
+  decide +kernel
+
+/-! ## 5. consequences spelled out -/
+
+/-- ORDER in `readMBAPFrame`: a well-sized frame with a FOREIGN protocol id is consumed in full
+    (header and body) before it is rejected: what is left is exactly what follows the frame. -/
+theorem C02F_mbap_foreign_consumed (t0 t1 p0 p1 l0 l1 u : Byte) (body rest : Bytes) (e : Ending)
+    (fuel : Nat) (hf : 64 ≤ fuel)
+    (h2 : 2 ≤ (mk16 l0 l1).toNat) (h254 : (mk16 l0 l1).toNat ≤ 254)
+    (hb : body.length = (mk16 l0 l1).toNat - 1) (hp : mk16 p0 p1 ≠ 0) :
+    mbapVerdict (mbapRun fuel (t0 :: t1 :: p0 :: p1 :: l0 :: l1 :: u :: (body ++ rest)) e) =
+      some (.err .unknownProtocolId, rest) := by
+  rw [C02F_readMBAPFrame _ _ _ hf, Mbap.readFrame_cons7_ok e h2 h254 hb, if_pos hp]
+
+/-- the length checks come FIRST: a header announcing more than 254 or fewer than 2 bytes is
+    rejected with `ErrProtocolError` whatever its protocol id, and nothing after the header is
+    read -/
+theorem C02F_mbap_badlen (t0 t1 p0 p1 l0 l1 u : Byte) (tl : Bytes) (e : Ending)
+    (fuel : Nat) (hf : 64 ≤ fuel) (h : 254 < (mk16 l0 l1).toNat ∨ (mk16 l0 l1).toNat ≤ 1) :
+    mbapVerdict (mbapRun fuel (t0 :: t1 :: p0 :: p1 :: l0 :: l1 :: u :: tl) e) =
+      some (.err .protocolError, tl) := by
+  rw [C02F_readMBAPFrame _ _ _ hf, Mbap.readFrame_cons7_badlen e h]
+
+/-- a short header / a short body gives the stream's own error (`io.EOF` on a clean end,
+    `io.ErrUnexpectedEOF` inside a frame, the timeout / other error otherwise) -/
+theorem C02F_mbap_short (s : Bytes) (e : Ending) (fuel : Nat) (hf : 64 ≤ fuel) (h : s.length < 7) :
+    mbapVerdict (mbapRun fuel s e) = some (.err (shortErr s.length e), []) := by
+  rw [C02F_readMBAPFrame _ _ _ hf, Mbap.readFrame_short7 e h]
+
+/-! ## 6. sensitivity: defective variants, DERIVED from the generated terms, are told apart -/
+
+/-- the statements of a right-nested `seq` -/
+def seqList : GStmt → List GStmt
+  | .seq a b => a :: seqList b
+  | s => [s]
+def ofSeqList : List GStmt → GStmt
+  | [] => .skip
+  | [s] => s
+  | a :: r => .seq a (ofSeqList r)
+
+def mbapRunOf (gs : GStmt) (fuel : Nat) (s : Bytes) (e : Ending) : Run :=
+  staged (fun heap ans => exec (readOracle (mbapPure (heapGet heap mbapBuf1)) ans) fuel gs
+    (mbapEnv (heapGet heap mbapBuf1))) mbapBufLen e 2 [] [] s
+def rtuRunOf (gs : GStmt) (fuel : Nat) (s : Bytes) (e : Ending) : Run :=
+  staged (fun heap ans => exec (readOracle rtuPure ans) fuel gs
+    (rtuEnv (heapGet heap rtuBuf1) (heapGet heap rtuBuf2) (heapLen heap rtuBuf2))) rtuBufLen e 2 [] [] s
+
+theorem mbapRunOf_gen : mbapRunOf gs_tcpTransport_readMBAPFrame = mbapRun := rfl
+theorem rtuRunOf_gen : rtuRunOf gs_rtuTransport_readRTUFrame = rtuRun := rfl
+
+/-- `readMBAPFrame` with the protocol-id test moved BEFORE the read of the PDU (statement 13 of
+    the generated term moved in front of statement 10): the previously seeded defect -/
+def mbapProtoFirst : GStmt :=
+  let l := seqList gs_tcpTransport_readMBAPFrame
+  ofSeqList (l.take 10 ++ (l.drop 13).take 1 ++ (l.drop 10).take 3 ++ l.drop 14)
+
+/-- a complete foreign-protocol frame (protocol id 5, 2 PDU bytes) followed by one more byte -/
+def foreignStream : Bytes := [0, 1, 0, 5, 0, 3, 0x11, 0x03, 0x02, 0xAA]
+
+/-- the current source consumes the foreign frame in full (the model's answer); the variant
+    rejects it after the header and leaves the body unread: the next `readMBAPFrame` would
+    start in the middle of a frame -/
+theorem C02F_sens_mbap_order :
+    mbapVerdict (mbapRunOf gs_tcpTransport_readMBAPFrame 64 foreignStream .timeout) =
+      some (.err .unknownProtocolId, [0xAA]) ∧
+    Mbap.readFrame foreignStream .timeout = (.err .unknownProtocolId, [0xAA]) ∧
+    mbapVerdict (mbapRunOf mbapProtoFirst 64 foreignStream .timeout) =
+      some (.err .unknownProtocolId, [0x03, 0x02, 0xAA]) := by
+  decide +kernel
+
+/-- same stream cut inside the body: the current source reports the stream's error, the variant
+    still answers `ErrUnknownProtocolId` -/
+theorem C02F_sens_mbap_order_short :
+    mbapVerdict (mbapRunOf gs_tcpTransport_readMBAPFrame 64 (foreignStream.take 8) .eof) =
+      some (.err .ioUnexpectedEOF, []) ∧
+    mbapVerdict (mbapRunOf mbapProtoFirst 64 (foreignStream.take 8) .eof) =
+      some (.err .unknownProtocolId, [0x03]) := by
+  decide +kernel
+
+/-- `readMBAPFrame` without the `bytesNeeded--` (statement 7 dropped): one byte too many is read -/
+def mbapNoDecrement : GStmt :=
+  let l := seqList gs_tcpTransport_readMBAPFrame
+  ofSeqList (l.take 7 ++ l.drop 8)
+
+theorem C02F_sens_mbap_len :
+    mbapVerdict (mbapRunOf mbapNoDecrement 64 [0, 1, 0, 0, 0, 3, 0x11, 0x03, 0x02, 0xAA] .timeout) =
+      some (.ok ⟨0x11, 0x03, [0x02, 0xAA]⟩ 1, []) ∧
+    Mbap.readFrame [0, 1, 0, 0, 0, 3, 0x11, 0x03, 0x02, 0xAA] .timeout =
+      (.ok ⟨0x11, 0x03, [0x02]⟩ 1, [0xAA]) := by
+  decide +kernel
+
+/-- `readRTUFrame` whose first test is just `byteCount != 3` (the guard
+    `(byteCount > 0 || err == nil)` dropped): an idle line that times out is reported as
+    `ErrShortFrame` instead of the timeout -/
+def rtuNoGuard : GStmt :=
+  let l := seqList gs_rtuTransport_readRTUFrame
+  ofSeqList (l.take 2 ++
+    [.ite (.cmp "!=" (.var "byteCount" .int) (.lit 3 .int))
+      (.seq (.assign "err" (.var "ErrShortFrame" .other)) .ret) .skip] ++ l.drop 3)
+
+theorem C02F_sens_rtu_guard :
+    rtuVerdict (rtuRunOf gs_rtuTransport_readRTUFrame 64 [] .timeout) = some (.error .ioTimeout, []) ∧
+    Rtu.readFrame [] .timeout = (.error .ioTimeout, []) ∧
+    rtuVerdict (rtuRunOf rtuNoGuard 64 [] .timeout) = some (.error .shortFrame, []) := by
+  decide +kernel
+
+/-- `readRTUFrame` without `bytesNeeded += 2` (statement 6 dropped): the CRC is not read -/
+def rtuNoCrcBytes : GStmt :=
+  let l := seqList gs_rtuTransport_readRTUFrame
+  ofSeqList (l.take 6 ++ l.drop 7)
+
+/-- a valid response (unit 1, fc 3, 2 data bytes, correct CRC 0x38 0x43) and one more byte -/
+def rtuStream : Bytes := [0x01, 0x03, 0x02, 0x00, 0x0a, 0x38, 0x43, 0x55]
+
+theorem C02F_sens_rtu_crcBytes :
+    rtuVerdict (rtuRunOf gs_rtuTransport_readRTUFrame 64 rtuStream .timeout) =
+      some (.ok ⟨0x01, 0x03, [0x02, 0x00, 0x0a]⟩, [0x55]) ∧
+    (rtuVerdict (rtuRunOf rtuNoCrcBytes 64 rtuStream .timeout)).map (·.2) =
+      some [0x38, 0x43, 0x55] := by
+  decide +kernel
+
+/-! ## 7. non-vacuity: concrete runs -/
+
+example : rtuVerdict (rtuRun 64 [0x01, 0x03, 0x02, 0x00, 0x0a, 0x38, 0x44] .eof) =
+    some (.error .badCRC, []) := by decide +kernel
+example : rtuVerdict (rtuRun 64 [0x01, 0x03, 0x02, 0x00] .eof) =
+    some (.error .shortFrame, []) := by decide +kernel
+example : rtuVerdict (rtuRun 64 [0x01, 0x03, 0x02, 0x00] .timeout) =
+    some (.error .ioTimeout, []) := by decide +kernel
+example : rtuVerdict (rtuRun 64 [0x01, 0x03, 0xfe, 0x00] .timeout) =
+    some (.error .protocolError, [0x00]) := by decide +kernel
+example : rtuVerdict (rtuRun 64 [0x01, 0x07, 0x00] .timeout) =
+    some (.error .protocolError, []) := by decide +kernel
+example : mbapVerdict (mbapRun 64 [0, 7, 0, 0, 0, 3, 0x11, 0x03, 0x02, 0xAA] .eof) =
+    some (.ok ⟨0x11, 0x03, [0x02]⟩ 7, [0xAA]) := by decide +kernel
+example : mbapVerdict (mbapRun 64 [0, 7, 0, 0, 0, 1, 0x11, 0x03] .eof) =
+    some (.err .protocolError, [0x03]) := by decide +kernel
+example : mbapVerdict (mbapRun 64 [0, 7, 0, 0, 0xff, 0xff, 0x11, 0x03] .eof) =
+    some (.err .protocolError, [0x03]) := by decide +kernel
+example : mbapVerdict (mbapRun 64 [] .eof) = some (.err .ioEOF, []) := by decide +kernel
 
 end Modbus.Props.C02
+
+#print axioms Modbus.Props.C02.C02F_expectedResponseLenth
+#print axioms Modbus.Props.C02.C02F_readMBAPFrame
+#print axioms Modbus.Props.C02.C02F_readRTUFrame
+#print axioms Modbus.Props.C02.C02F_staleReads
+#print axioms Modbus.Props.C02.C02F_mbap_foreign_consumed
+#print axioms Modbus.Props.C02.C02F_mbap_badlen
+#print axioms Modbus.Props.C02.C02F_mbap_short
+#print axioms Modbus.Props.C02.C02F_sens_mbap_order
+#print axioms Modbus.Props.C02.C02F_sens_mbap_order_short
+#print axioms Modbus.Props.C02.C02F_sens_mbap_len
+#print axioms Modbus.Props.C02.C02F_sens_rtu_guard
+#print axioms Modbus.Props.C02.C02F_sens_rtu_crcBytes
